@@ -2575,7 +2575,7 @@ impl<'a> Parser<'a> {
                 let (arguments, type_arguments) = self.parse_call_arguments()?;
                 let span = self.span_from(start);
                 expr = Expression::Call(Box::new(CallExpression {
-                    callee: Rc::new(expr),
+                    callee: Rc::new(Self::without_assertions(expr)),
                     arguments,
                     type_arguments,
                     optional: false,
@@ -2660,7 +2660,7 @@ impl<'a> Parser<'a> {
                     let (arguments, type_arguments) = self.parse_call_arguments()?;
                     let span = self.span_from(start);
                     expr = Expression::Call(Box::new(CallExpression {
-                        callee: Rc::new(expr),
+                        callee: Rc::new(Self::without_assertions(expr)),
                         arguments,
                         type_arguments,
                         optional: true,
@@ -3849,7 +3849,7 @@ impl<'a> Parser<'a> {
 
         let span = self.span_from(start);
         Ok(Some(Expression::Call(Box::new(CallExpression {
-            callee: Rc::new(callee),
+            callee: Rc::new(Self::without_assertions(callee)),
             arguments,
             type_arguments: Some(type_args),
             optional: false,
@@ -5751,7 +5751,8 @@ impl<'a> Parser<'a> {
         }
     }
 
-    /// The operand of `++` / `--` without TypeScript assertions: `x!++`, `(x as T)++` update x
+    /// The operand of `++` / `--` or the callee of a call without TypeScript assertions:
+    /// `x!++` and `(x as T)++` update x; `o.m!(a)` and `(o.m as F)(a)` call o.m with `this` = o
     fn without_assertions(expr: Expression) -> Expression {
         match expr {
             Expression::NonNull(n) => Self::without_assertions(n.expression.as_ref().clone()),
